@@ -1,8 +1,8 @@
 CONSTANTS
-  SplitBits = 1
+  SplitBits = 2
   MaxNodes = 28
-  MaxT = 14
-  NExp = 3
+  MaxT = 18
+  NExp = 2
   MaxLevel = 100000
   CovPrint = FALSE
 CONSTANT Timers <- TimerSet
